@@ -112,8 +112,9 @@ func (h *harness) checkAsof() bool {
 				return
 			}
 			st := h.states[i]
-			if t < st.lo || t > st.hi {
-				h.fail("C19/asof", "", "stepping back: state %d (offset %d) reports time %d, but it was persisted between %d and %d", i, st.off, t, st.lo, st.hi)
+			// the record is stamped before the state is published; time can pass in between
+			if t > st.hi || (i+1 < n && t > times[i+1]) {
+				h.fail("C19/asof", "", "stepping back: state %d (offset %d) reports time %d, but it was published at %d and the next state reports %d", i, st.off, t, st.hi, times[min(i+1, n-1)])
 				ok = false
 				return
 			}
